@@ -14,7 +14,7 @@ func init() {
 	register(&Property{
 		ID:          "C05",
 		Engines:     []string{"cfg", "lockset"},
-		Explanation: "Per-connection job serialisation, structural part: jobList is only touched under Conn.mux (O1); Execute tests closed and appends in one critical section and its closed edge returns false without appending or starting a drainer (O2); a drainer is started only by the submitter that found the list empty, decided in the critical section of the append (O3); the drainer decides exhaustion, resets the list and fetches the next job in one critical section, runs the job with the mutex released and advances its index by one (O4); jobs run inside a recover frame (O5); MustExecute has no closed test, the nbhttp close hook does all its work inside a MustExecute job, and parsers / WebSocket connections on the poller paths use the bound Execute of the registered connection (O6).",
+		Explanation: "Per-connection job serialisation, structural part: jobList is only touched under Conn.mux (O1); Execute tests closed and appends in one critical section and its closed edge returns false without appending or starting a drainer (O2); a drainer is started only by the submitter that found the list empty, decided in the critical section of the append (O3); the drainer decides exhaustion, resets the list and fetches the next job in one critical section, runs the job with the mutex released and advances its index by one (O4); jobs run inside a recover frame (O5); MustExecute has no closed test, the nbhttp close hook does all its work inside a MustExecute job, and parsers / WebSocket connections on the poller paths use the bound Execute of the registered connection (O6). A job handed to Execute is never also called directly by the submitter (O7).",
 		NotCovered:  "the hand-over under all interleavings (a model-checking statement; O3+O4 are its necessary shape); behaviour of user-supplied executors",
 		Run:         runC05,
 	})
